@@ -73,7 +73,7 @@ impl WriteSource for pr::TyTupleField {
                 let mut r = String::new();
 
                 if let Some(name) = name {
-                    r += name;
+                    r += &super::ast::write_ident_part(name);
                     r += " = ";
                 }
                 if let Some(expr) = expr {
